@@ -98,6 +98,7 @@ func runC03(s *scenario, seed uint64) {
 		c03Sizes(s, seed, false)
 		c03Sizes(s, seed, true)
 		c03Last(s, seed)
+		c03First(s)
 		c03Lag(s, "fill")
 		c03Lag(s, "oversize")
 	}
